@@ -12,8 +12,10 @@ import concurrent.futures
 import copy
 import json
 import math
+import re
 import struct
 
+import dbparse
 import vlib
 import gen_surfconst
 from gens import surface as gen
@@ -37,6 +39,90 @@ def unhexd(h):
 
 def dbpath(db):
     return str(vlib.REPO / "database" / db)
+
+
+# ------------------------------------------------------------------------------------------------ species data from TEXT
+_DBCACHE = {}
+
+
+def hexd(x):
+    return struct.pack(">d", float(x)).hex()
+
+
+def cd_music_from_text(text):
+    """{species: [5 numbers]} from `-cd_music` option lines of SURFACE_SPECIES in `text` (own small reader)"""
+    out, cur, inblock = {}, None, False
+    for raw in text.split("\n"):
+        for line in raw.split(";"):
+            line = line.split("#")[0].strip()
+            if not line:
+                continue
+            w0 = line.split()[0].lower()
+            if w0 in dbparse.KEYWORDS:
+                inblock = w0 == "surface_species"
+                if w0 == "end":
+                    return out
+                continue
+            if not inblock:
+                continue
+            if "=" in line and not line.startswith("-"):
+                try:
+                    lhs, rhs = dbparse.split_equation(line)
+                    cur = rhs[0][1]
+                except Exception:
+                    cur = None
+            elif cur and re.match(r"-?cd_music\b|-?music\b", line.lower()):
+                vals = []
+                for t in line.split()[1:6]:
+                    try:
+                        vals.append(float(t))
+                    except ValueError:
+                        break
+                out[cur] = (vals + [0.0] * 5)[:5]
+    return out
+
+
+def text_species(db, text):
+    """surface species as the database file and the input text define them (tools/dbparse.py; the input's own
+    SURFACE_SPECIES come later and win).  Returns (dict name -> Species, {name: cd_music}, problems)"""
+    if db not in _DBCACHE:
+        _DBCACHE[db] = dbparse.parse(dbpath(db))
+    base = _DBCACHE[db]
+    sp = dict(base.surface_species)
+    cds, problems = {}, list(base.problems)
+    if "SURFACE_SPECIES" in text:
+        own = dbparse.parse(text, is_text=True)
+        sp.update(own.surface_species)
+        cds = cd_music_from_text(text)
+        problems += [p for p in own.problems if "surf" in p.lower()]
+    return sp, cds, problems
+
+
+def d_lines(case_id, db, text, lines):
+    """`D` lines (reading of the TEXT) for the surface species that occur in the dump `lines` of one case"""
+    names = set()
+    for ln in lines:
+        if ln.startswith("P "):
+            names.add(unhex(ln.split()[1]))
+    if not names:
+        return []
+    sp, cds, _ = text_species(db, text)
+    out = []
+    for n in sorted(names):
+        s = sp.get(n)
+        if s is None or s.add_logk:
+            continue
+        toks = []
+        for nm, c in s.rxn:
+            kind = 6 if nm in sp else 2 if nm == "H2O" else 3 if nm == "e-" else 1 if nm == "H+" else 0
+            toks += [hexs(nm), hexd(c / s.head_coef), hexd(s.zs.get(nm, 0.0)), str(kind)]
+        cd = cds.get(n)
+        elts = []
+        for e, k in s.elements.items():
+            elts += [hexs(e), hexd(k)]
+        out.append(" ".join(["D", str(case_id), hexs(n), hexd(s.z), str(len(s.rxn))] + toks + [hexd(v) for v in s.logk.vector()] +
+                            ["1" if cd else "0"] + [hexd(v) for v in (cd or [0.0] * 5)] + [str(len(s.elements))] + elts))
+    return out
 
 
 # ------------------------------------------------------------------------------------------------ running cases
@@ -73,6 +159,9 @@ def run_batch(ctx, exe, batch):
                 cur["err"] = unhex(ln.split()[1])[:600]
             else:
                 cur["lines"].append(ln)
+    for i, db, t in batch:
+        if i in res and res[i]["errors"] == 0:
+            res[i]["dlines"] = d_lines(i, db, t, res[i]["lines"])
     if rc != 0 or len([1 for c in res.values() if c["done"]]) != len(batch):
         if len(batch) == 1:
             res[batch[0][0]] = {"errors": -1, "lines": [], "err": f"harness exit {rc}", "done": False, "crashed": True}
@@ -88,7 +177,7 @@ def evaluate(ctx, results):
     text = []
     for i, c in results.items():
         if c["errors"] == 0:
-            text += c["lines"]
+            text += c.get("dlines", []) + c["lines"]
     if not text:
         return {}
     out = ctx.pmodel("surface", "\n".join(text) + "\n", timeout=1800)
